@@ -105,7 +105,10 @@ typedef const char *h_pat_t;
 static int h_patbit(h_pat_t pat, int m, int i, int j) { const char *s = pat; if (s[0] == '0' && (s[1] == 'x' || s[1] == 'X')) s += 2; int len = (int)strlen(s); int bit = j * m + i; int d = bit / 4; if (d >= len) return 0;
   char c = s[len - 1 - d]; int v = (c >= '0' && c <= '9') ? c - '0' : (c >= 'a' && c <= 'f') ? c - 'a' + 10 : (c >= 'A' && c <= 'F') ? c - 'A' + 10 : 0; return (v >> (bit % 4)) & 1; }
 /* symcols: bitmask of columns whose entries are symbolic; the other columns get fixed generic concrete values (distinct magnitudes, dominant diagonal) */
-static real_t h_concrete_value(int i, int j, int n) { static const int pr[] = {3, 5, 7, 11, 13, 17, 19, 23, 29, 31, 37, 41}; int k = (i * 5 + j * 3) % 12; real_t v = (real_t)pr[k] / (real_t)(16 + ((i + 2 * j) % 7)); if ((i + j) & 1) v = -v; if (i == j) v = (real_t)(4 * n + i + 1); return v; }
+static int h_scalemode = 0;   /* bit0: row i of the generic concrete matrix is scaled by 2^(-14 i); bit1: column j by 2^(-14 j) -- badly scaled on purpose, so that equilibration really happens (equed R / C / B) */
+static real_t h_concrete_value_(int i, int j, int n);
+static real_t h_concrete_value(int i, int j, int n) { real_t v = h_concrete_value_(i, j, n); if (h_scalemode & 1) for (int k = 0; k < i; k++) v *= (real_t)(1.0 / 16384.0); if (h_scalemode & 2) for (int k = 0; k < j; k++) v *= (real_t)(1.0 / 16384.0); return v; }
+static real_t h_concrete_value_(int i, int j, int n) { static const int pr[] = {3, 5, 7, 11, 13, 17, 19, 23, 29, 31, 37, 41}; int k = (i * 5 + j * 3) % 12; real_t v = (real_t)pr[k] / (real_t)(16 + ((i + 2 * j) % 7)); if ((i + j) & 1) v = -v; if (i == j) v = (real_t)(4 * n + i + 1); return v; }
 static void symmat_build_cols(symmat_t *S, int m, int n, h_pat_t pat, const char *pfx, unsigned symcols) {
   S->m = m; S->n = n; S->val = (elem_t *)malloc(sizeof(elem_t) * (m * n + 1)); S->rowind = (int_t *)malloc(sizeof(int_t) * (m * n + 1)); S->colptr = (int_t *)malloc(sizeof(int_t) * (n + 1));
   dense_clear(&S->D, m, n); int_t k = 0; char nm[32];
